@@ -4,7 +4,8 @@ E2 twin worlds: real run vs dry run + executing the returned plan alone, from ev
 """
 from .. import e2prop
 
-KW = dict(tags=["C14"], norm=False, opts={"dry": True})
+# normalising stores: a returned output node that denotes the in-memory value instead of the read-back is visible
+KW = dict(tags=["C14"], norm=True, opts={"dry": True})
 PROP = "C14"
 
 
